@@ -1456,6 +1456,18 @@ class DynGraph(nx.Graph):
         # @todo: implement (page 8, Latapy)
         pass
 
+    def clear(self):
+        """Remove all nodes and interactions from the graph (snapshots and interaction stream included)."""
+        nx.Graph.clear(self)
+        self.time_to_edge.clear()
+        self.snapshots.clear()
+
+    def clear_edges(self):
+        """Remove all interactions from the graph without altering nodes."""
+        nx.Graph.clear_edges(self)
+        self.time_to_edge.clear()
+        self.snapshots.clear()
+
     @not_implemented()
     def remove_edge(self, u, v):
         pass
